@@ -72,7 +72,57 @@ static void base_destroy(sqfs_object_t *o) { (void)o; }
 static tar_iterator_t IT;
 static sqfs_istream_t BASE;
 
-#ifdef SPARSE
+#ifdef HOSTILE
+/*
+ * HOSTILE shape (C07): the sparse map of the member is ARBITRARY (two regions
+ * with any 64 bit offsets and counts: overlapping, unsorted, empty, beyond the
+ * file size) - it comes straight from an untrusted archive.  Post: reading the
+ * member is memory safe and every successful call delivers at least one byte,
+ * so the member ends after at most `size` calls (no endless loop), whatever
+ * the map says.
+ */
+#ifndef FSMAX
+#define FSMAX 6
+#endif
+static sparse_map_t MAP[2];
+void harness(void)
+{
+	sqfs_dir_entry_t *ent = NULL;
+	sqfs_istream_t *ms = NULL;
+	sqfs_u64 fs = ND_U64(), off = 0;
+	int ret = 0, done = 0;
+
+	VP_ASSUME(fs <= FSMAX);
+	R[0] = ND_U64(); R[1] = 0;
+	POS = 4096;
+	BASE.base.refcount = 1; BASE.base.destroy = base_destroy; BASE.get_buffered_data = base_get; BASE.advance_buffer = base_adv;
+	IT.base.obj.refcount = 1; IT.base.obj.destroy = it_destroy;
+	IT.stream = &BASE;
+	ret = it_next(&IT.base, &ent);
+	VP_ASSERT(ret == 0 && ent != NULL, "entry");
+	free(ent);
+	MAP[0].offset = ND_U64(); MAP[0].count = ND_U64(); MAP[0].next = ND_BOOL() ? &MAP[1] : NULL;
+	MAP[1].offset = ND_U64(); MAP[1].count = ND_U64(); MAP[1].next = NULL;
+	IT.current.sparse = &MAP[0]; IT.current.actual_size = fs; IT.file_size = fs;
+	ret = it_open_file_ro(&IT.base, &ms);
+	VP_ASSERT(ret == 0 && ms != NULL, "member stream");
+	for (int k = 0; k < FSMAX + 1; ++k) {
+		const sqfs_u8 *p; size_t n = 0;
+		ret = strm_get_buffered_data(ms, &p, &n, 4096);
+		if (ret != 0) { done = 1; break; }
+		VP_ASSERT(n >= 1, "C07: every successful read of a member makes progress (no endless loop on a crafted sparse map)");
+		/* (a crafted map whose region is larger than the file makes the member
+		   deliver archive bytes beyond the announced size; that is wrong data
+		   for a wrong archive, not a crash or hang, and not demanded by C07) */
+		VP_ASSERT(VP_R_OK(p, n), "chunk readable");
+		strm_advance_buffer(ms, n);
+		off += n;
+	}
+	VP_ASSERT(done, "C07: the member ends after at most `size` successful reads");
+	IT.current.sparse = NULL;
+	if (ret > 0) VP_REACH("ended"); else VP_REACH("io_error");
+}
+#elif defined(SPARSE)
 /*
  * SPARSE shape: one member with a sparse map of one data region
  * [so, so+sc) inside a file of fs bytes (all symbolic, fs <= FSMAX); only the
